@@ -14,7 +14,8 @@ EXPLANATION = (
     "same name, runtime-only fields are skipped both ways. Linearisation under the real scheduler follows from these and RwLock semantics."
     ' no-residue: the per-thread recursion budget of the checker/evaluator is given back on every exit, so a refused replacement leaves no state behind.'
     ' validate-complete: the checker of every builtin admits no more operand kinds than its evaluator handles (so an ill-typed replacement is refused).'
-    ' success-without-swap: every Ok return of set_rules passes the write that replaces the list.')
+    ' success-without-swap: every Ok return of set_rules passes the write that replaces the list.'
+    " posted-list: the list post_rules hands to set_rules is the extractor's payload itself (moved or cloned), not the result of a call, and not truncated / reordered before.")
 RULE_TEXT = "instances = writers of the rule list, exits of set_rules, guards in process_request, serde fields"
 TRUSTED = ["tokio RwLock gives writers exclusive access", "serde derives honour the field attributes"]
 NOT_DECIDED = ["linearisation under the actual scheduler (argued from 1-3 and RwLock semantics; not model-checked)"]
@@ -165,6 +166,44 @@ def run(chk, prog):
         if not ok:
             chk.finding("post-rules", po.key, "reply", "", "%s:%s" % (po.file, po.line),
                         "post_rules does not separate the failed and the successful reload (one set_rules call, error -> error response, success -> re-read)")
+        # the list set_rules validates and installs is the list that was posted: its argument is the extractor's payload, moved -- not a
+        # list some call derived from it (a filtered / truncated / de-duplicated copy is validated instead of what the client sent, so an
+        # invalid rule the derivation dropped is accepted silently and the posted list is not what is in force)
+        if len(s_) == 1 and len(s_[0].args) >= 2:
+            l0 = op_base(s_[0].args[1])
+            SAME = [r"clone::Clone::clone$", r"borrow::ToOwned::to_owned$", r"mem::take$", r"slice::<impl \[T\]>::to_vec$", r"Deref::deref$",
+                    r"convert::(Into::into|From::from)$"]
+            tr = po.trace(l0, through_calls=SAME) if l0 is not None else []
+            via = [info for k, info in tr if k == "call" and not any(re.search(x, info.path or "") for x in SAME)]
+            root = None
+            for k, info in tr:
+                if k in ("place", "ref", "arg", "local"):
+                    root = info
+            from_arg = bool(tr) and not via
+            MUT = re.compile(r"Vec::<T, A>::(truncate|retain|retain_mut|pop|remove|swap_remove|drain|clear|dedup|dedup_by|dedup_by_key|split_off|"
+                             r"insert|push|sort|sort_by|sort_by_key|reverse|swap|extend_from_slice|append)$|slice::<impl \[T\]>::(sort|sort_by|sort_by_key|reverse|swap|rotate_left|rotate_right)$")
+            muts = []
+            if from_arg:
+                from ..flow import flow_forward as ff2_
+                roots = set()
+                for k, info in tr:
+                    if k in ("place", "ref") and info:
+                        roots.add(info[0])
+                    if k in ("arg", "local") and isinstance(info, int):
+                        roots.add(info)
+                tracked = set(ff2_(po, list(roots) + [l0], [r"Deref(Mut)?::deref(_mut)?$", r"AsMut::as_mut$", r"Vec::<T, A>::as_mut_slice$"])[0]) | roots | {l0}
+                for c in po.calls:
+                    if MUT.search(c.path or "") and c.args and op_base(c.args[0]) in tracked and not po.dominates(s_[0].bb, c.bb):
+                        muts.append(c)
+            okp = from_arg and not muts
+            whyp = ("passes through %s" % ", ".join(short(c.path or c.name or "?") for c in via)) if via else (
+                "modified by %s before set_rules" % ", ".join(short(c.path) for c in muts) if muts else "")
+            chk.instance("post-rules", s_[0].where(), "set_rules receives the posted list itself", okp, whyp)
+            if not okp:
+                chk.finding("post-rules", po.key, "posted-list", "", s_[0].where(),
+                            "post_rules does not hand the posted list to set_rules as it was sent (%s): what is validated and installed differs "
+                            "from what the client posted, so an invalid rule can be accepted silently and the reply no longer describes the "
+                            "posted list" % whyp)
     # ---------------------------------------------------------------- (5) serde round trip
     # read from the *derived impls* (serde's helper attributes are not visible after expansion): the literals passed to
     # serialize_field in Serialize::serialize vs the literals matched by the field visitor of Deserialize
